@@ -98,6 +98,10 @@ DIM_VALUES = {'time': (['2019', '2020', '2021'], '2020'), 'elevation': (['0', '5
 TILED_EXTRAS = ['tiled=true', 'TILED=TRUE', 'tiled=True', 'Tiled=tRuE', 'tiled=true&EXCEPTIONS=inimage']
 OTHER_EXTRAS = ['EXCEPTIONS=inimage', 'TRANSPARENT=true', 'FOO=bar&X_VENDOR=1', 'BGCOLOR=0xff0000', 'EXCEPTIONS=blank',
                 'tiled=false', 'DPI=300&MAP_RESOLUTION=300', 'TILED=yes']
+# in-image / blank exception formats in the spellings of WMS 1.1.1 and 1.3.0 ('v130:' = sent as a 1.3.0 request when over the limit)
+EXC_EXTRAS = ['EXCEPTIONS=application/vnd.ogc.se_inimage', 'EXCEPTIONS=application/vnd.ogc.se_blank', 'v130:EXCEPTIONS=INIMAGE',
+              'v130:EXCEPTIONS=BLANK', 'EXCEPTIONS=blank', 'EXCEPTIONS=inimage', 'v130:EXCEPTIONS=blank&TRANSPARENT=TRUE',
+              'EXCEPTIONS=application/vnd.ogc.se_blank&tiled=true']
 REST_TEMPLATES = [None, None,
                   '/{Layer}/{TileMatrixSet}/{TileMatrix}/{TileRow}/{TileCol}.{Format}',
                   '/x/{TileMatrixSet}/{Layer}/{TileMatrix}/{TileCol}/{TileRow}.{Format}']
@@ -298,6 +302,9 @@ def make_probes(seed, opts):
         probes.append({'kind': 'wms-pixels', 'layer': rnd.choice(px_layers), 'rel': rel,
                        'extras': rnd.choice(TILED_EXTRAS + OTHER_EXTRAS + OTHER_EXTRAS),
                        'col': rnd.choice(VAL_COL), 'row': rnd.choice(VAL_COL)})
+        if rel not in ('below', 'at-swapped'):
+            probes.append({'kind': 'wms-pixels', 'layer': rnd.choice(px_layers), 'rel': rel, 'extras': rnd.choice(EXC_EXTRAS),
+                           'col': rnd.choice(VAL_COL), 'row': rnd.choice(VAL_COL)})
     for rel in ('below', 'below', 'at', 'above', 'above', 'above2', 'far'):
         probes.append({'kind': 'wms-tiles', 'layer': rnd.choice(['a', 'b', 'a', 'b', 'ab']), 'rel': rel,
                        'lvl': rnd.choice(['last', 'last', 'mid', 'first']), 'col': rnd.choice(VAL_COL), 'row': rnd.choice(VAL_COL),
@@ -311,6 +318,18 @@ def make_probes(seed, opts):
             probes.append({'kind': 'wms-tiles', 'layer': layer, 'grid': grid, 'rel': rel,
                            'lvl': rnd.choice(['last', 'last', 'mid']), 'col': rnd.choice(VAL_COL) if grid == 'g1' else 'mid',
                            'row': rnd.choice(VAL_COL) if grid == 'g1' else 'mid', 'wide': rnd.random() < 0.5})
+    if multi and opts.get('fi'):
+        # WMTS GetFeatureInfo against each matrix set of the two-grid layer: addresses outside the addressed matrix set,
+        # among them addresses that exist in the other matrix set
+        for svc in ('wmts-kvp', 'wmts-rest'):
+            for mset in (0, 1):
+                for axis in ('col', 'row'):
+                    for off in ('-1', 'last+1', 'other-last', '10^18'):
+                        a = {'lvl': rnd.choice(['last', 'mid', 'second']), 'col': rnd.choice(['0', 'last']), 'row': rnd.choice(['0', 'last'])}
+                        a[axis] = off
+                        probes.append(dict(a, kind='wmts-fi-sets', svc=svc, set=mset))
+                for off in ('-1', 'last+1', '99'):
+                    probes.append({'kind': 'wmts-fi-sets', 'svc': svc, 'set': mset, 'lvl': off, 'col': '0', 'row': '0'})
     for where in ('east', 'west', 'north', 'south', 'corner', 'beyond', 'far'):
         probes.append({'kind': 'wms-edge', 'layer': rnd.choice(['a', 'b']), 'where': where,
                        'lvl': rnd.choice(['last', 'mid', 'first'])})
@@ -396,7 +415,7 @@ def second_grid(g, facts):
     X, Y = X[ok], Y[ok]
     digits = 6 if dst == 'EPSG:4326' else 1
     bbox = [round(float(X.min()), digits), round(float(Y.min()), digits), round(float(X.max()), digits), round(float(Y.max()), digits)]
-    return {'srs': dst, 'bbox': bbox, 'tile_size': [64, 64], 'num_levels': 5, 'origin': 'll'}
+    return {'srs': dst, 'bbox': bbox, 'tile_size': [64, 64], 'num_levels': 5, 'origin': 'ul'}
 
 
 def build_conf(case, facts, base_dir):
@@ -611,6 +630,19 @@ def wmts_matrix(client, layer):
         c_lo, c_hi, r_lo, r_hi = client.tile_range(layer, tms, mi)
         levels.append(Level(m.identifier, (c_lo, c_hi, c_hi + 1), (r_lo, r_hi, r_hi + 1)))
     return Matrix(levels, list(lyr.formats), id_format='%02d'), tms
+
+
+def wmts_matrices(client, layer):
+    """every matrix set linked by a layer: [(matrix set identifier, Matrix)] in document order"""
+    lyr = client.layers.get(layer)
+    out = []
+    for tms, _ in (lyr.links if lyr is not None else []):
+        levels = []
+        for mi, m in enumerate(client.matrix_sets[tms].matrices):
+            c_lo, c_hi, r_lo, r_hi = client.tile_range(layer, tms, mi)
+            levels.append(Level(m.identifier, (c_lo, c_hi, c_hi + 1), (r_lo, r_hi, r_hi + 1)))
+        out.append((tms, Matrix(levels, list(lyr.formats), id_format='%02d')))
+    return out
 
 
 def pick(sel, rng):
@@ -919,6 +951,8 @@ class ConfigRun(object):
             return self._tile_probe(probe)
         if kind == 'wms-pixels':
             return self._wms_pixels(probe)
+        if kind == 'wmts-fi-sets':
+            return self._fi_sets_probe(probe)
         if kind == 'wms-tiles':
             return self._wms_tiles(probe)
         if kind == 'wms-edge':
@@ -1049,9 +1083,54 @@ class ConfigRun(object):
         self._judge(p, req, expect, classes, nontrivial=bool(near or astro or fmt_state == 'invalid' or dim_state == 'invalid'),
                     svc=svc + ('-featureinfo' if is_fi else ''), what=what if len(offs) <= 1 else 'multi', sig_override=sig)
 
-    def _fi_request(self, svc, layer, ident, col, row, fmt):
+    def _fi_sets_probe(self, p):
+        """GetFeatureInfo on the layer with two matrix sets: the address is judged against the matrix set the request names"""
+        if not (self.opts.get('multi') and self.opts.get('fi')):
+            return
+        svc = p['svc']
+        client = self.wmts.get(svc.split('-')[1]) or self.wmts['rest']
+        sets = wmts_matrices(client, 'lyr_x')
+        if len(sets) < 2:
+            self.stats.notes['two-grid-layer-has-%d-wmts-matrix-sets' % len(sets)] += 1
+            return
+        (name, m), (_, other) = sets[p['set'] % 2], sets[(p['set'] + 1) % 2]
+        n = len(m.levels)
+        lv = p['lvl']
+        if lv in VAL_LVL:
+            li = {'first': 0, 'second': min(1, n - 1), 'last': n - 1, 'mid': n // 2}[lv]
+            ident, lvl_ok = m.levels[li].ident, True
+        else:
+            li, lvl_ok = n - 1, False
+            ident = {'-1': '-1', '99': '99'}.get(lv) or m.id_format % (int(m.levels[-1].ident) + 1)
+            if ident in m.idents():
+                return
+        L = m.levels[li]
+        vals = {}
+        for axis, rng in (('col', L.cols), ('row', L.rows)):
+            sel = p[axis]
+            if sel == 'other-last':
+                if li >= len(other.levels):
+                    return
+                o = other.levels[li].cols if axis == 'col' else other.levels[li].rows
+                if o[1] <= rng[1]:
+                    self.stats.notes['fi-sets:other-matrix-not-larger'] += 1
+                    return
+                vals[axis] = o[1]       # exists in the other matrix set, not in this one
+            else:
+                vals[axis] = pick(sel, rng)
+        if lvl_ok and judge_index(vals['col'], L.cols) == 'valid' and judge_index(vals['row'], L.rows) == 'valid':
+            return
+        in_other = li < len(other.levels) and lvl_ok and judge_index(vals['col'], other.levels[li].cols) == 'valid' \
+            and judge_index(vals['row'], other.levels[li].rows) == 'valid'
+        req = self._fi_request(svc, 'x', ident, vals['col'], vals['row'], m.formats[0] if m.formats else 'image/png', tms_name=name)
+        what = 'other-matrix-set-address' if in_other else 'out-of-matrix-address'
+        self._judge(p, req, 'refuse', ['svc:%s-featureinfo' % svc, 'layer:x', 'expect:refuse',
+                                       'probe:featureinfo-matrix-set-%d-%s' % (p['set'] % 2, what)],
+                    nontrivial=True, svc=svc + '-featureinfo', what='two-matrix-sets/' + what)
+
+    def _fi_request(self, svc, layer, ident, col, row, fmt, tms_name=None):
         name = 'lyr_' + layer
-        tms_name = self.matrix_set[(svc, layer)]
+        tms_name = tms_name or self.matrix_set[(svc, layer)]
         if svc == 'wmts-kvp':
             params = [('SERVICE', 'WMTS'), ('REQUEST', 'GetFeatureInfo'), ('VERSION', '1.0.0'), ('LAYER', name), ('STYLE', 'default'),
                       ('TILEMATRIXSET', tms_name), ('TILEMATRIX', ident), ('TILEROW', str(row)), ('TILECOL', str(col)),
@@ -1096,7 +1175,7 @@ class ConfigRun(object):
         tpl = re.sub(r'\{(\w+)\}', dim_value, tpl)
         return tpl, ''
 
-    def _judge(self, probe, req, expect, classes, nontrivial, svc, what, sig_override=None):
+    def _judge(self, probe, req, expect, classes, nontrivial, svc, what, sig_override=None, blank_ok=True):
         res, calls, events, added, removed = self.observe(req[0], req[1])
         cls, detail = classify(res)
         if cls == 'raised':
@@ -1124,9 +1203,9 @@ class ConfigRun(object):
                                    % (what, ev, sorted(added, key=repr)[:3], sorted(removed, key=repr)[:3], cls, detail), probe, req)
                     return
             if expect == 'refuse':
-                if cls == 'blank':
+                if cls == 'blank' and blank_ok:
                     self.stats.notes['blank-tile-for-invalid-request(tolerated):' + svc] += 1
-                elif cls in ('image', 'other'):
+                elif cls in ('image', 'other', 'blank'):
                     self.violation(sig_override or 'C16/%s/%s/served' % (svc, what),
                                    'request that must be refused (%s) was answered with %s %s (%d bytes)'
                                    % (what, cls, detail, len(res.body)), probe, req)
@@ -1148,9 +1227,10 @@ class ConfigRun(object):
         return {'a': 'lyr_a', 'b': 'lyr_b', 'ab': 'lyr_a,lyr_b', 'd': 'lyr_d', 'm': 'lyr_m', 'ad': 'lyr_a,lyr_d',
                 'x': 'lyr_x', 'y': 'lyr_y'}[p['layer']]
 
-    def _getmap(self, layers, bbox, size, fmt='image/png', extras=None):
-        params = [('SERVICE', 'WMS'), ('VERSION', '1.1.1'), ('REQUEST', 'GetMap'), ('LAYERS', layers), ('STYLES', ''),
-                  ('SRS', self.cur_srs), ('BBOX', ','.join(repr(float(v)) for v in bbox)),
+    def _getmap(self, layers, bbox, size, fmt='image/png', extras=None, v130=False):
+        # (1.3.0 is only used for over-limit requests, which are refused before the axis order of BBOX matters)
+        params = [('SERVICE', 'WMS'), ('VERSION', '1.3.0' if v130 else '1.1.1'), ('REQUEST', 'GetMap'), ('LAYERS', layers), ('STYLES', ''),
+                  ('CRS' if v130 else 'SRS', self.cur_srs), ('BBOX', ','.join(repr(float(v)) for v in bbox)),
                   ('WIDTH', str(size[0])), ('HEIGHT', str(size[1])), ('FORMAT', fmt)]
         query = '&'.join('%s=%s' % (k, quote(v, safe='/:,')) for k, v in params)
         return '/service', query + ('&' + extras if extras else '')
@@ -1211,26 +1291,40 @@ class ConfigRun(object):
                 (p['layer'] == 'm' and 'm' not in (self.opts.get('direct') or '')):
             return      # (hand-edited case)
         extras = p.get('extras')
+        v130 = bool(extras) and extras.startswith('v130:')
+        if v130:
+            extras = extras[5:]
         low = (extras or '').lower()
         tiled = 'tiled=true' in low
-        in_image = 'exceptions=inimage' in low or 'exceptions=blank' in low
-        req = self._getmap(self._layers(p), rect, size, extras=extras)
+        in_image = 'exceptions=' in low and ('image' in low or 'blank' in low)
+        if in_image and size[0] * size[1] > 20000000:
+            # an exception image of the requested size must never be produced (check_map_request sets prevent_image_exception);
+            # should it be produced nevertheless, it must not hurt the harness: astronomic sizes are replaced by 64 x the limit
+            k = 8
+            while k > 1 and k * wm * k * hm > 20000000:
+                k -= 1
+            size = (k * wm + 1, k * hm)
         px = size[0] * size[1]
+        req = self._getmap(self._layers(p), rect, size, extras=extras, v130=v130 and px > P)
         if px > P:
-            # with EXCEPTIONS=inimage / blank a refusal may legitimately be an image: only the side effects are judged
-            expect = 'refuse-any-answer' if in_image else 'refuse'
+            # doc/services.rst: "MapProxy returns an WMS exception in XML format for requests that are larger" - whatever
+            # EXCEPTIONS asks for, an over-limit request is never answered with an image (not even a blank one)
+            expect = 'refuse'
         elif tiled:
             # WMS-C request: must align with the tile grid of a cached layer, otherwise an error (not modelled here)
             expect = 'global-only'
         else:
             expect = 'serve'
         near = abs(px - P) <= 0.05 * P
-        kind = 'none' if not extras else ('tiled' if tiled else 'other')
+        kind = 'none' if not extras else ('tiled' if tiled else ('image-exceptions' if in_image else 'other'))
         uncached = p['layer'] in ('d', 'm', 'ad')
         self._judge(p, req, expect, ['svc:wms', 'layer:' + p['layer'], 'expect:' + expect, 'probe:pixels-' + rel,
-                                     'pixels-extras:%s/%s' % (kind, 'uncached-layer' if uncached else 'cached-layer')],
+                                     'pixels-extras:%s/%s' % (kind, 'uncached-layer' if uncached else 'cached-layer')]
+                    + (['pixels-image-exceptions:%s/%s' % ('1.3.0' if v130 and px > P else '1.1.1', 'over' if px > P else 'within')]
+                       if in_image else []),
                     nontrivial=near or rel.startswith('astro'), svc='wms',
-                    what='pixels-over-limit' + ('+tiled' if tiled else ('+extras' if extras else '')))
+                    what='pixels-over-limit' + ('+image-exceptions' if in_image else ('+tiled' if tiled else ('+extras' if extras else ''))),
+                    blank_ok=False)
 
     def _wms_tiles(self, p):
         gname = p.get('grid', 'g1')
@@ -1335,7 +1429,10 @@ def run_case(case, stats, exclude_known=True):
     import numpy as np
     logging.disable(logging.CRITICAL)
     try:
-        with np.errstate(all='ignore'):     # the synthetic upstream renders outside the area of validity of an SRS now and then
+        import warnings
+        # the synthetic upstream renders outside the area of validity of an SRS now and then (NaN coordinates)
+        with np.errstate(all='ignore'), warnings.catch_warnings():
+            warnings.simplefilter('ignore', RuntimeWarning)
             return ConfigRun(case, stats, exclude_known=exclude_known).run()
     finally:
         logging.disable(logging.NOTSET)
